@@ -531,6 +531,41 @@ def _value_use(e, derived):
     return False
 
 
+def r216(ctx):
+    """quick_prob looks at the zero pattern only, which gives the permanent ratios exactly when every
+    path of the block has one constant weight (each column of the transposed block is its own first
+    entry or zero). The gate in front of it is therefore a *per-path* comparison - the block compared
+    element-wise with its own first row by broadcasting. A pooled membership test (isin / in1d /
+    unique / set over the whole block) accepts a block whose deviating weights merely coincide with
+    another path's first weight: quick_prob is applied to non-constant rows and P is no longer
+    W_ij perm(W^ij)/perm(W), while rows and columns still sum to one."""
+    rid = "R-2.16"
+    f = ctx.tree.func(REPEX, "REPEX_state.inf_retis")
+    fl = flow_of(f)
+    POOLED = {"isin", "in1d", "unique", "intersect1d", "setdiff1d", "union1d", "set", "frozenset", "tolist"}
+    n = 0
+    for c in [x for x in walk_local(f) if isinstance(x, ast.Call) and is_self_attr(x.func, "quick_prob")]:
+        at = fl.cfg.node_of(c)
+        for ge, gt, bn in fl.cfg.guards(at):
+            names = {x.id for x in ast.walk(ge) if isinstance(x, ast.Name)}
+            if not any(isinstance(x, ast.Call) and last_name(x) in ("all", "any", "isin", "in1d", "unique", "array_equal", "allclose") for x in ast.walk(ge)):
+                continue  # a size test (len(...) == 1), not the constancy gate
+            n += 1
+            pooled = [x for x in ast.walk(ge) if isinstance(x, ast.Call) and last_name(x) in POOLED]
+            own_first = [x for x in ast.walk(ge) if isinstance(x, ast.Compare) and len(x.ops) == 1 and isinstance(x.ops[0], (ast.Eq, ast.NotEq)) and any(
+                isinstance(a, ast.Name) and isinstance(b, ast.Subscript) and isinstance(b.value, ast.Name) and b.value.id == a.id and isinstance(b.slice, ast.Constant) and b.slice.value == 0
+                for a, b in ((x.left, x.comparators[0]), (x.comparators[0], x.left)))]
+            if pooled:
+                ctx.bad(rid, pooled[0], f"the gate in front of quick_prob (`{short(ge, 70)}`) pools the weights of the whole block (`{last_name(pooled[0])}`): a block whose non-constant weights happen to equal another path's first weight passes as 'one constant weight per path', quick_prob sees only its zero pattern and the result is not the permanent ratio (e.g. W=[[2,4,4],[4,4,4],[4,4,2]] gives 1/3 everywhere) although rows and columns sum to one",
+                        construct="quick_prob gate by pooled membership")
+            elif own_first and gt:
+                ctx.ok(rid, ge, "the block is compared element-wise with its own first row (one constant weight per path) before quick_prob is used")
+            else:
+                raise AnalysisError(f"R-2.16: the gate `{short(ge, 60)}` in front of quick_prob is neither a per-path comparison with the first row nor a pooled membership test (cannot decide)")
+    if n == 0:
+        raise AnalysisError("R-2.16: no constancy gate in front of quick_prob found")
+
+
 def r215(ctx):
     """Weights are positive reals (high-acceptance weights are ratios; a row may be rescaled by any
     positive factor without changing P). Nothing in the permanent pipeline may truncate or round a
@@ -1152,6 +1187,8 @@ def run(ctx):
     ctx.rule("R-2.2", "the getter computes P from the live weight matrix and busy flags and memoises that result", floor=2)
     ctx.rule("R-2.3", "busy rows and columns: one mask from `locks`, idle selector on both axes, zeros re-inserted on both axes at positions counted from the same mask", floor=4)
     ctx.rule("R-2.4", "the row sort is undone through the index array that sorted", floor=1)
+    ctx.rule("R-2.16", "the zero-pattern kernel is used only for blocks with one constant weight per path: the gate compares the block element-wise with its own first row, never by pooled membership", floor=1)
+    ctx.attempt(r216, ctx)
     ctx.rule("R-2.15", "weights stay real numbers through the whole permanent pipeline: no integer cast, rounding or floor division of an array derived from the weight matrix (zero pattern and ratios preserved; scale invariance)", floor=4)
     ctx.attempt(r215, ctx)
     ctx.rule("R-2.14", "the staircase order of the idle block is computed from its zero pattern only (sort keys read W through W > 0, never the weights' values)", floor=1)
@@ -1183,6 +1220,8 @@ def run(ctx):
 
 
 VARIANTS = [
+    B("c02-constancy-gate-by-pooled-membership", REPEX, "                elif np.all(subarr_T[np.where(subarr_T != subarr_T[0])] == 0):", "                elif np.all(np.isin(subarr_T, np.append(subarr_T[0], 0))):", "R-2.16", control=True, why="seeded C02_l"),
+    K("c02-keep-constancy-gate-as-a-disjunction", REPEX, "                elif np.all(subarr_T[np.where(subarr_T != subarr_T[0])] == 0):", "                elif np.all((subarr_T == subarr_T[0]) | (subarr_T == 0)):"),
     B("c02-block-search-on-integer-work-copy", REPEX, "        temp_arr = arr.copy()\n", "        temp_arr = arr.astype(int)\n", "R-2.15", control=True, why="seeded C02_k"),
     K("c02-keep-block-search-on-boolean-work-copy", REPEX, "        temp_arr = arr.copy()\n", "        temp_arr = (arr != 0).astype(float)\n", why="only the zero pattern is counted"),
     K("c02-keep-block-search-on-float-copy", REPEX, "        temp_arr = arr.copy()\n", "        temp_arr = arr.astype(float)\n"),
